@@ -1862,6 +1862,23 @@ def quiescent(ctx, fit):
     return True
 
 
+def cost_function_refuses_data(ctx, case):
+    """A cost function built with fallback_on_singular=False raises, as documented, when the covariance matrix is singular (zero
+    uncertainty, fully correlated source): such a fit cannot be evaluated, hence not written (the file contains cost and goodness of fit).
+    Decided on an identically built twin so that the object under test stays unobserved before it is saved."""
+    if (case.get("cost_object") or {}).get("options", {}).get("fallback_on_singular") is not False:
+        return False
+    try:
+        twin = build_staged_fit(None, case, count_ops=False)
+        ok = np.isfinite(float(twin.cost_function_value))
+        twin.get_result_dict()
+    except Exception:
+        ok = False
+    if not ok:
+        ctx.discard("cost-function-without-fallback-refuses-singular-covariance")
+    return not ok
+
+
 def build_staged_fit(ctx, case, count_ops=True):
     fut = FitUnderTest(case)
     fut.apply(ctx if count_ops else None, case["ops"])
@@ -1937,6 +1954,11 @@ def refit(h, fit, re, case):
             bad.append([n, "free", pa[i], pb[i], sig[i]])
     if abs(ca - cb) > tc + 1e-9 * abs(ca):
         bad.append(["cost", ca, cb])
+    elif any(b[1] == "free" and abs(b[2] - b[3]) > b[4] for b in bad):
+        # sigma is DEFINED by a cost increase of 1: two end points more than one reported sigma apart with the same cost (to 1e-3) show
+        # that the minimum has a flat direction and the reported sigma is no yardstick (degenerate-minimum policy: positions not compared)
+        ctx.discard("refit-minimum-degenerate")
+        return
     h.verdict("refit", not bad, {"differences": bad, "sigma_tolerance": ts, "cost_tolerance": tc, "original": pa, "reloaded": pb, "path": "refit", "expected": ca, "got": cb})
     return True
 
@@ -1996,7 +2018,7 @@ def run_fit(ctx, h, case, tmp, tag):
     fit = build_staged_fit(ctx, case)
     # no observation of the original before it is saved, except after MINOS (see quiescent): what is written must not depend on
     # whether somebody happened to read the fit before
-    if not well_posed(ctx, fit, h.feats) or not stage_fit(ctx, fit, case["stage"]) or (case["stage"] == "asym" and not quiescent(ctx, fit)):
+    if not well_posed(ctx, fit, h.feats) or cost_function_refuses_data(ctx, case) or not stage_fit(ctx, fit, case["stage"]) or (case["stage"] == "asym" and not quiescent(ctx, fit)):
         h.alive = False
         h.discarded = True
         return
@@ -2066,7 +2088,7 @@ def run_wwr(ctx, h_factory, case, tmp):
 def run_state(ctx, h, case, tmp):
     fc = case["fit"]
     fit = build_staged_fit(ctx, fc)
-    if not well_posed(ctx, fit, h.feats) or not stage_fit(ctx, fit, fc["stage"]) or (fc["stage"] == "asym" and not quiescent(ctx, fit)):
+    if not well_posed(ctx, fit, h.feats) or cost_function_refuses_data(ctx, fc) or not stage_fit(ctx, fit, fc["stage"]) or (fc["stage"] == "asym" and not quiescent(ctx, fit)):
         h.alive = False
         h.discarded = True
         return
